@@ -169,6 +169,12 @@ def run_ufunc(nm, mk):
     out.add("apply-2axes", lambda: apply_as_grid_ufunc(f2, da, axis=[(Y, X)], grid=grid, signature=sig2, boundary_width={U: (1, 0), V: (1, 0)}), nm)
     out.add("apply-2axes-swapped", lambda: apply_as_grid_ufunc(f2, da, axis=[(X, Y)], grid=grid, signature=sig2, boundary_width={U: (1, 0), V: (1, 0)},
                                                                boundary={X: "fill", Y: "extend"}, fill_value={X: 1.5}), nm)
+    # both axes filled with a different value: the corner cells show the order in which the axes are padded,
+    # which must follow the signature / boundary_width, never the spelling of the names
+    out.add("apply-2axes-two-fills", lambda: apply_as_grid_ufunc(f2, da, axis=[(Y, X)], grid=grid, signature=sig2, boundary_width={U: (1, 0), V: (1, 0)},
+                                                                 boundary="fill", fill_value={X: 1.5, Y: -2.5}), nm)
+    out.add("apply-2axes-two-fills-swapped", lambda: apply_as_grid_ufunc(f2, da, axis=[(X, Y)], grid=grid, signature=sig2, boundary_width={V: (1, 0), U: (1, 0)},
+                                                                         boundary="fill", fill_value={Y: -2.5, X: 1.5}), nm)
     sig1 = "(%s:center)->(%s:left)" % (U, U)
     out.add("decorated-1axis", lambda: as_grid_ufunc(signature=sig1, boundary_width={U: (1, 0)}, boundary="fill", fill_value=0.5)(f1)(grid, da, axis=[(X,)]), nm)
     out.add("grid-method", lambda: grid.apply_as_grid_ufunc(f1, da, axis=[(Y,)], signature=sig1, boundary_width={U: (1, 0)}), nm)
